@@ -601,8 +601,8 @@ func c05CmpOK(x, bound *big.Float, incl bool, lower bool) bool {
 
 // c05Adm reads membership of x in the real result w.  structural=false: through the
 // public accessors of Range() exactly as they report (an absent bound is reported
-// as an exclusive infinity); structural=true: an absent bound (seen in the
-// refinement struct) means unbounded.
+// as an inclusive infinity since bb8bc8c/bc44d9b; it used to be exclusive);
+// structural=true: an absent bound (seen in the refinement struct) means unbounded.
 func c05Adm(w cty.Value, x c05Sample, structural bool) bool {
 	w, _ = w.Unmark()
 	if w.IsKnown() {
@@ -683,7 +683,21 @@ func c05SplitTop(s string) []string {
 
 // ---- sample generation --------------------------------------------------------
 
-var c05Eps = new(big.Float).SetMantExp(big.NewFloat(1), -80)
+const c05SamplePrec = 192
+
+// c05EpsOf: a step well below g's own resolution (1/16 ulp; 2^-80 for zero) and the
+// precision at which g ± step is exact.
+func c05EpsOf(g *big.Float) (*big.Float, uint) {
+	if g.Sign() == 0 {
+		return new(big.Float).SetMantExp(big.NewFloat(1), -80), 64
+	}
+	p := g.Prec()
+	if p < 8 {
+		p = 8
+	}
+	e := g.MantExp(nil) // g = m·2^e, 0.5 <= |m| < 1
+	return new(big.Float).SetMantExp(big.NewFloat(1), e-int(p)-4), p + 16
+}
 
 func c05NumSample(f *big.Float) c05Sample {
 	return c05Sample{kind: "num", f: f, val: cty.NumberVal(new(big.Float).Copy(f))}
@@ -693,11 +707,15 @@ func c05Samples(t cty.Type, calls []c05Call, extra []cty.Value) []c05Sample {
 	out := []c05Sample{{kind: "null", val: cty.NullVal(t)}}
 	switch c05TyKind(t) {
 	case "num":
+		// Sample precision: Value.Equals formats non-integers with math/big's shortest-decimal
+		// algorithm, whose cost grows with the square of the precision, so the samples are held at
+		// c05SamplePrec bits (not thousands); neighbours of a bound sit a fraction of the bound's own
+		// ulp away, at the bound's precision + 16 bits.
 		var base []*big.Float
 		for _, k := range []int64{-2, -1, 0, 1, 2} {
-			base = append(base, new(big.Float).SetPrec(4096).SetInt64(k))
+			base = append(base, new(big.Float).SetPrec(c05SamplePrec).SetInt64(k))
 		}
-		base = append(base, new(big.Float).SetPrec(4096).SetFloat64(0.5), new(big.Float).SetPrec(4096).SetFloat64(-0.5))
+		base = append(base, new(big.Float).SetPrec(c05SamplePrec).SetFloat64(0.5), new(big.Float).SetPrec(c05SamplePrec).SetFloat64(-0.5))
 		var args []*big.Float
 		addArg := func(a c05Arg) {
 			if f := a.f(); f != nil && !f.IsInf() && len(args) < 6 {
@@ -721,10 +739,15 @@ func c05Samples(t cty.Type, calls []c05Call, extra []cty.Value) []c05Sample {
 		for _, f := range args {
 			// the sample equal to a bound keeps the bound's precision (Value.Equals is only exact at equal precision)
 			g := new(big.Float).Copy(f)
-			base = append(base, g, new(big.Float).SetPrec(4096).Add(g, c05Eps), new(big.Float).SetPrec(4096).Sub(g, c05Eps))
+			eps, p := c05EpsOf(g)
+			base = append(base, g, new(big.Float).SetPrec(p).Add(g, eps), new(big.Float).SetPrec(p).Sub(g, eps))
 		}
 		for i := 0; i+1 < len(args); i++ {
-			m := new(big.Float).SetPrec(4096).Add(args[i], args[i+1])
+			p := args[i].Prec()
+			if q := args[i+1].Prec(); q > p {
+				p = q
+			}
+			m := new(big.Float).SetPrec(p+16).Add(args[i], args[i+1])
 			m.Quo(m, big.NewFloat(2))
 			base = append(base, m)
 		}
@@ -896,6 +919,8 @@ func c05KindsSig(cs []c05Call) string {
 	return strings.Join(ks, ",")
 }
 
+const c05DroppedSig = "exclusive-singleton-infinity-dropped"
+
 // c05Dropped: an exclusive bound at the singleton infinity of its own side — the builder drops it.
 func c05Dropped(c c05Call) bool {
 	return (c.k == "lo" && c.a.tag == "ninf" && !c.incl) || (c.k == "hi" && c.a.tag == "pinf" && !c.incl)
@@ -921,6 +946,12 @@ type c05Judge struct {
 }
 
 func (j *c05Judge) fail(site, sig, what string, recv c05Recv, cs []c05Call, outcome string) {
+	if sig == c05DroppedSig && site != "exact" {
+		// one root cause, one (site, sig): the builder drops an exclusive bound at the singleton
+		// infinity of its own side.  Where the consequence was observed goes into the description.
+		what = "[observed at " + site + "] " + what
+		site = "exact"
+	}
 	j.ctx.Fail(Failure{Site: site, Sig: sig, What: what, Input: encVal(recv.v) + " " + c05Wires(cs),
 		GoLit: c05Lit(recv.lit, cs), Outcome: outcome})
 }
